@@ -635,7 +635,15 @@ pub static CUR: std::sync::Mutex<Option<(serde_json::Value, String, StratSpec, u
 pub fn current_record(prop: &str, class: &str, msg: String, trace: Vec<u32>) -> Option<Replay> {
     let g = CUR.lock().unwrap();
     let (sc, mode, strat, rs, seed, has_rdv) = g.as_ref()?.clone();
-    let p = if prop == "C11" || has_rdv { "C11" } else { "C04" };
+    // a dispatch that never returns: C11 when systems were waiting for each other, otherwise the
+    // property under check if it speaks about dispatches completing, else "every system runs"
+    let p = if prop == "C11" || has_rdv {
+        "C11"
+    } else if matches!(prop, "C04" | "C07" | "C12" | "C13" | "C14" | "C15") {
+        prop
+    } else {
+        "C04"
+    };
     let msg = match serde_json::from_value::<Scenario>(sc.clone()) {
         Ok(s) if has_rdv => describe_rendezvous_failure(&s, &msg),
         _ => msg,
